@@ -244,8 +244,23 @@ def make_hook(kid, log):
     return k
 
 
+_STRUCT = {'usable': True}
+
+
 def walk_structure(radidict):
-    """structural invariant (c); -> message or None"""
+    """structural invariant (c); -> message or None.  The walker knows the node layout of the anchored radix tree;
+    if that layout is refactored away the monitor switches itself off (counted) instead of failing the run."""
+    if not _STRUCT['usable']:
+        return None
+    try:
+        return _walk_structure(radidict)
+    except (AttributeError, IndexError, TypeError, KeyError, ImportError) as e:
+        _STRUCT['usable'] = False
+        _STRUCT['why'] = repr(e)
+        return None
+
+
+def _walk_structure(radidict):
     from ombott.router import radidict as RD
     T = radidict.param_token
     stack = [(radidict.root, True)]
@@ -440,6 +455,8 @@ def run_history(ctx, hist, probe_every=None):
             if not compare(ctx, s, hist[:i + 1], 'prefix of'):
                 return False
     ctx.count('histories')
+    if not _STRUCT['usable']:
+        ctx.note('structure_monitor_switched_off', _STRUCT.get('why'))
     return compare(ctx, s, hist, 'the')
 
 
